@@ -13,7 +13,7 @@ COMMON_INV = """next_state.coins.wf() && (is_tip_906 ==> counts_ok(next_state.co
                 && next_state.fee_multiplier == st0.fee_multiplier && next_state.dosc_speed == st0.dosc_speed
                 && next_state.pools == st0.pools && next_state.stakes == st0.stakes
                 && txx == transactions@ && rel == relevant_coins@ && rel_consistent(txx, rel) && c0 == st0.coins@.coins
-                && (forall|q: int| 0 <= q < txx.len() ==> spec_well_formed(#[trigger] txx[q]))"""
+                && (forall|q: int| 0 <= q < txx.len() ==> spec_well_formed(#[trigger] txx[q]) && cov_weights_fit(txx[q]))"""
 FAUC = """forall|q: int| 0 <= q < %s && (#[trigger] txx[q]).kind == TxKind::Faucet ==>
                !(st0.network == NetID::Mainnet && !is_grandfathered(spec_txhash(txx[q])))
                && (!is_grandfathered(spec_txhash(txx[q])) ==> !c0.contains_key(spec_marker(spec_txhash(txx[q]))))"""
@@ -26,6 +26,7 @@ FEE2 = """next_state.fee_pool.0 as int == st0.fee_pool.0 + fsum(txx.take(%s), mi
           && (forall|q: int| 0 <= q < %s ==> (#[trigger] txx[q]).fee.0 >= spec_base_fee(txx[q], st0.fee_multiplier))"""
 CNS = Fn(A, "create_next_state", home="C02", implicit_props=("C09", "C02", "C05"), **ap_create_next_state(),
     rewrites=[("R4", 1)],
+    closures=[Closure(0, "c: &[u8]", "(r: u128)", ensures=[C("weigher", "r as nat == spec_cov_weight_b(c@)", "C05", note="the closure handed to Transaction::base_fee is the covenant weigher")])],
     injects=[
         Inject("entry", """let ghost st0 = next_state; let ghost c0 = next_state.coins@.coins; let ghost rel = relevant_coins@; let ghost txx = transactions@;
                            proof { assert forall|x: CoinID| true implies !#[trigger] created_by(txx, 0, rel, x) && !marker_of(txx, 0, x) by {} }"""),
@@ -134,7 +135,7 @@ UNIT = Unit(
         Fn(A, "faucet_dedup_pseudocoin", home="C19", implicit_props=("C09", "C19"), **ap_faucet_pseudocoin(),
            rewrites=[("SUB", 'b"fdp"', "FDP_STR")]),
         Fn(A, "handle_faucet_tx", home="C19", implicit_props=("C09", "C19"), **ap_handle_faucet()),
-        Raw("#[verifier::external_body] pub fn covenant_weight_from_bytes(b: &[u8]) -> u128 { unimplemented!() }"),
+        Raw(COV_WEIGHT_STUB),
         CNS,
     ],
 )
